@@ -14,6 +14,7 @@
 //@ note R13 rebinding additionally assumes kRawBufSize >= fgUTF8BOMLen + fgASCIIPreLen, fgUTF16PreLen + 2 and kCharBufSize (true for 49152 / 16384): the prefix comparisons and the EBCDIC loop rely on the real buffer being that much larger than the prolog
 //@ note assumed of the callees: XMLString::compareNString(char*) (= strncmp) and memcmp read at most `count` bytes of each operand and write nothing (their RESULT is left arbitrary: weaker assumption); XMLEBCDICTranscoder::xlatThisOne returns some XMLCh (table lookup, proved in the tbl_* units)
 //@ note the memory-manager calls that precede each throw (deallocate, ArrayJanitor) are removed by sub rules: the constructor is being abandoned there, ownership is outside this unit
+//@ note C05 part: the target model is little-endian (XMLPlatformUtils::fgXMLChBigEndian = false); the decoded value is specified from the encoding name alone (UCS-4BE / UTF-16BE = most significant octet first), fSwapped is derived by the real checkForSwapped, which the harness runs first
 //@ note BitOps::swapBytes is overloaded on the operand width; C has no overloading, so the two extracted overloads are selected by a _Generic macro exactly as C++ overload resolution would
 #define VERIF_DEFINE_GHOSTS
 #include "verif_prelude.h"
@@ -71,6 +72,25 @@ static
 @*/
 #define BitOps_swapBytes(x) _Generic((x), UTF16Ch: BitOps_swapBytes16, UCS4Ch: BitOps_swapBytes32)(x)
 
+/* ---- C05: what "decoding the declaration line" means, written from the encoding definitions (ISO/IEC 10646 UCS-4 = 4 octets, UTF-16 = 2 octets,
+   most significant first for the BE forms; UTF-8 one-octet form = the octet itself, < 0x80) -- target model little-endian (DESIGN ledger) ---- */
+XMLSize_t G;                                        /* universal ghost index into the decoded characters; harness-chosen, never assigned */
+#define RAW8(k)   ((XMLUInt32)fRawByteBuf[((k) < kRawBufSize) ? (k) : 0])
+#define BE32(o)   ((RAW8(o) << 24) | (RAW8((o) + 1) << 16) | (RAW8((o) + 2) << 8) | RAW8((o) + 3))
+#define LE32(o)   ((RAW8((o) + 3) << 24) | (RAW8((o) + 2) << 16) | (RAW8((o) + 1) << 8) | RAW8(o))
+#define BE16(o)   ((RAW8(o) << 8) | RAW8((o) + 1))
+#define LE16(o)   ((RAW8((o) + 1) << 8) | RAW8(o))
+#define IS_UCS4   (fEncoding == XMLRecognizer_UCS_4B || fEncoding == XMLRecognizer_UCS_4L)
+#define IS_UTF16  (fEncoding == XMLRecognizer_UTF_16B || fEncoding == XMLRecognizer_UTF_16L)
+#define UCS4_AT(o)  (fEncoding == XMLRecognizer_UCS_4B ? BE32(o) : LE32(o))
+#define UTF16_AT(o) (fEncoding == XMLRecognizer_UTF_16B ? BE16(o) : LE16(o))
+/* number of characters decoded from the raw bytes (the rest is the one space slipped in for a PE referenced outside a literal) */
+#define PE_SPACE  ((fType == Type_PE && fRefFrom == RefFrom_NonLiteral) ? 1 : 0)
+#define NDEC      (fCharsAvail - PE_SPACE)
+#define XMLPlatformUtils_fgXMLChBigEndian 0         /* little-endian target model */
+/*@extract src/xercesc/internal/XMLReader.cpp XMLReader::checkForSwapped
+@*/
+
 /*@extract src/xercesc/internal/XMLReader.cpp XMLReader::doInitDecode
 sub fMemoryManager->deallocate\([^)]*\); =>
 sub ArrayJanitor<XMLCh> janValue\(fSystemId, fMemoryManager\); =>
@@ -81,6 +101,8 @@ __CPROVER_requires(!verif_thrown && fCharIndex == 0 && fCharsAvail == 0 && fRawB
 __CPROVER_requires((fEncoding == XMLRecognizer_UCS_4B || fEncoding == XMLRecognizer_UCS_4L) ==> fRawBytesAvail >= 4)
 __CPROVER_requires((fEncoding == XMLRecognizer_UTF_16B || fEncoding == XMLRecognizer_UTF_16L) ==> fRawBytesAvail >= 2)
 __CPROVER_requires(fEncoding == XMLRecognizer_EBCDIC ==> fRawBytesAvail > XMLRecognizer_fgEBCDICPreLen)
+/* fSwapped comes from checkForSwapped() (the harness runs the real one and checks this relation) */
+__CPROVER_requires(fSwapped == (fEncoding == XMLRecognizer_UTF_16B || fEncoding == XMLRecognizer_UCS_4B) && G < kCharBufSize)
 /* parametricity in the rebound sizes (see note) */
 __CPROVER_requires(kRawBufSize >= XMLRecognizer_fgUTF8BOMLen + XMLRecognizer_fgASCIIPreLen && kRawBufSize >= XMLRecognizer_fgUTF16PreLen + 2 && kRawBufSize >= kCharBufSize && kCharBufSize >= 2)
 __CPROVER_assigns(fRawBufIndex, fRawBytesAvail, fCharsAvail, __CPROVER_object_upto(fRawByteBuf, sizeof(fRawByteBuf)), __CPROVER_object_upto(fCharBuf, sizeof(fCharBuf)), __CPROVER_object_upto(fCharSizeBuf, sizeof(fCharSizeBuf)), __CPROVER_object_upto(fCharOfsBuf, sizeof(fCharOfsBuf)), verif_thrown, verif_throw_type, verif_throw_code)
@@ -89,6 +111,15 @@ __CPROVER_ensures(fCharIndex == 0 && fCharsAvail <= kCharBufSize && fRawBufIndex
 __CPROVER_ensures(verif_thrown ==> (verif_throw_type == VT_TranscodingException && fCharsAvail == 0 && fRawBufIndex == 0))
 /* the only thing ever removed from the raw window is a UCS-4 byte-order mark */
 __CPROVER_ensures(fRawBytesAvail == __CPROVER_old(fRawBytesAvail) || ((fEncoding == XMLRecognizer_UCS_4B || fEncoding == XMLRecognizer_UCS_4L) && fRawBytesAvail + 4 == __CPROVER_old(fRawBytesAvail)))
+/* C05: every character put into fCharBuf is exactly the decoding of its raw bytes, which are consumed contiguously; sizes recorded accordingly.
+   UCS-4 (after the BOM, if any, was removed): 4 octets per character, value <= 0xFFFF */
+__CPROVER_ensures((!verif_thrown && IS_UCS4) ==> (fRawBufIndex == 4 * NDEC && (G < NDEC ==> (fCharBuf[G] == UCS4_AT(4 * G) && UCS4_AT(4 * G) <= 0xFFFF && fCharSizeBuf[G] == 4))))
+/* UTF-16: 2 octets per character, after an optional byte-order mark */
+__CPROVER_ensures((!verif_thrown && IS_UTF16 && NDEC > 0) ==> ((fRawBufIndex == 2 * NDEC || fRawBufIndex == 2 + 2 * NDEC) && (G < NDEC ==> (fCharBuf[G] == UTF16_AT(fRawBufIndex - 2 * NDEC + 2 * G) && fCharSizeBuf[G] == 2))))
+/* UTF-8 / ASCII-compatible: 1 octet per character, all < 0x80, after an optional 3-octet byte-order mark */
+__CPROVER_ensures((!verif_thrown && fEncoding == XMLRecognizer_UTF_8 && NDEC > 0) ==> ((fRawBufIndex == NDEC || fRawBufIndex == 3 + NDEC) && (G < NDEC ==> (fCharBuf[G] == RAW8(fRawBufIndex - NDEC + G) && fCharBuf[G] < 0x80 && fCharSizeBuf[G] == 1))))
+/* the decl line ends at the first '>' : nothing after it is decoded here */
+__CPROVER_ensures((!verif_thrown && G + 1 < NDEC) ==> fCharBuf[G] != chCloseAngle)
 loop 1
 __CPROVER_assigns(i, __CPROVER_object_upto(fRawByteBuf, sizeof(fRawByteBuf)))
 __CPROVER_loop_invariant(i <= fRawBytesAvail)
@@ -96,18 +127,25 @@ __CPROVER_decreases(fRawBytesAvail - i)
 loop 2
 __CPROVER_assigns(asUCS, fRawBufIndex, fCharsAvail, __CPROVER_object_upto(fCharBuf, sizeof(fCharBuf)), __CPROVER_object_upto(fCharSizeBuf, sizeof(fCharSizeBuf)), verif_thrown, verif_throw_type, verif_throw_code)
 __CPROVER_loop_invariant(!verif_thrown && fRawBufIndex <= fRawBytesAvail && fCharsAvail <= kCharBufSize - 1 && RAW_AT(asUCS, fRawBufIndex))
+__CPROVER_loop_invariant(fRawBufIndex == 4 * fCharsAvail)
+__CPROVER_loop_invariant((G < fCharsAvail) ==> (fCharBuf[G] == UCS4_AT(4 * G) && UCS4_AT(4 * G) <= 0xFFFF && fCharSizeBuf[G] == 4 && fCharBuf[G] != chCloseAngle))
 __CPROVER_decreases(fRawBytesAvail - fRawBufIndex)
 loop 3
 __CPROVER_assigns(asChars, fRawBufIndex, fCharsAvail, __CPROVER_object_upto(fCharBuf, sizeof(fCharBuf)), __CPROVER_object_upto(fCharSizeBuf, sizeof(fCharSizeBuf)), verif_thrown, verif_throw_type, verif_throw_code)
 __CPROVER_loop_invariant(!verif_thrown && fRawBufIndex <= fRawBytesAvail && fCharsAvail <= kCharBufSize - 1 && RAW_AT(asChars, fRawBufIndex))
+__CPROVER_loop_invariant(fRawBufIndex == __CPROVER_loop_entry(fRawBufIndex) + fCharsAvail)
+__CPROVER_loop_invariant((G < fCharsAvail) ==> (fCharBuf[G] == RAW8(__CPROVER_loop_entry(fRawBufIndex) + G) && fCharBuf[G] < 0x80 && fCharSizeBuf[G] == 1 && fCharBuf[G] != chCloseAngle))
 __CPROVER_decreases(fRawBytesAvail - fRawBufIndex)
 loop 4
 __CPROVER_assigns(asUTF16, fRawBufIndex, fCharsAvail, __CPROVER_object_upto(fCharBuf, sizeof(fCharBuf)), __CPROVER_object_upto(fCharSizeBuf, sizeof(fCharSizeBuf)), verif_thrown, verif_throw_type, verif_throw_code)
 __CPROVER_loop_invariant(!verif_thrown && fRawBufIndex <= fRawBytesAvail && fCharsAvail <= kCharBufSize - 1 && RAW_AT(asUTF16, fRawBufIndex))
+__CPROVER_loop_invariant(fRawBufIndex == __CPROVER_loop_entry(fRawBufIndex) + 2 * fCharsAvail)
+__CPROVER_loop_invariant((G < fCharsAvail) ==> (fCharBuf[G] == UTF16_AT(__CPROVER_loop_entry(fRawBufIndex) + 2 * G) && fCharSizeBuf[G] == 2 && fCharBuf[G] != chCloseAngle))
 __CPROVER_decreases(fRawBytesAvail - fRawBufIndex)
 loop 5
 __CPROVER_assigns(srcPtr, fRawBufIndex, fCharsAvail, __CPROVER_object_upto(fCharBuf, sizeof(fCharBuf)), __CPROVER_object_upto(fCharSizeBuf, sizeof(fCharSizeBuf)), verif_thrown, verif_throw_type, verif_throw_code)
 __CPROVER_loop_invariant(!verif_thrown && fRawBufIndex < fRawBytesAvail && fCharsAvail <= kCharBufSize - 1 && RAW_AT(srcPtr, fRawBufIndex))
+__CPROVER_loop_invariant((G < fCharsAvail) ==> fCharBuf[G] != chCloseAngle)
 __CPROVER_decreases(fRawBytesAvail - fRawBufIndex)
 loop 6
 __CPROVER_assigns(index, __CPROVER_object_upto(fCharOfsBuf, sizeof(fCharOfsBuf)))
@@ -119,6 +157,8 @@ void h_doInitDecode(void)
 {
   VERIF_INPUT(SELF);
   verif_thrown = 0;
+  XMLReader_checkForSwapped();
+  __CPROVER_assert(fSwapped == (fEncoding == XMLRecognizer_UTF_16B || fEncoding == XMLRecognizer_UCS_4B), "C05: checkForSwapped sets fSwapped iff the auto-sensed encoding is big-endian (little-endian target)");
   XMLReader_doInitDecode();
   VERIF_CANARY("after call");
 }
